@@ -34,8 +34,10 @@ Definition mk_inferred (l : list elt) (nm : option nat) : tvec :=
 
 (* Vector.copy(): Vector(list(self._underlying), dtype=self._dtype, name=self._name) *)
 Definition copy (v : tvec) : tvec := mk_vector (vals v) (vdt v) (vname v).
-(* Vector.copy(new_values, name): the SAME dtype over other values (used by __getitem__) *)
-Definition copy_new (v : tvec) (l : list elt) (nm : option nat) : tvec := mk_vector l (vdt v) nm.
+(* Vector.copy(new_values, name): the declared dtype, widened by every new value exactly as inference
+   would (for x in values: dtype = dtype.promote_with(x)); used by __getitem__ *)
+Definition copy_new (v : tvec) (l : list elt) (nm : option nat) : tvec :=
+  mk_vector l (option_map (fun d => fold_left promote_with (infos_of l) d) (vdt v)) nm.
 
 (* a Vector object seen as an ELEMENT of another vector: its class is the typed subclass
    Vector.__new__ dispatched to.  Class tokens: _Int 20, _Float 21, _String 22, _Date 23,
@@ -69,13 +71,15 @@ Definition vector_new (x : elt) (n : nat) (typesafe : bool) : res tvec :=
   match n with
   | O => if typesafe then Err EOther                       (* DataType has no with_default *)
          else Ok (mkVec [] (Some (match x with None => mkD KObject false | Some _ => d end)) None)
-  | _ => Ok (mkVec (repeat x n) (Some (if typesafe then mkD (dkind d) false else d)) None)
+  | _ => Ok (mkVec (repeat x n)       (* typesafe drops nullability — unless the element IS None *)
+                   (Some (if typesafe && negb (el_none x) then mkD (dkind d) false else d)) None)
   end.
 
 (* ---- operations that keep / rebuild the dtype themselves -------------------------------------- *)
 
-(* Vector.to_object(): Vector(list(values), dtype=object) — DataType(object) is NOT nullable *)
-Definition to_object (v : tvec) : tvec := mkVec (vals v) (Some (mkD KObject false)) (vname v).
+(* Vector.to_object(): Vector(list(values), dtype=DataType(object, nullable=<some element is None>)) *)
+Definition to_object (v : tvec) : tvec :=
+  mkVec (vals v) (Some (mkD KObject (existsb el_none (vals v)))) (vname v).
 
 (* Vector.T: self.copy(name=self._name) with the display flag flipped *)
 Definition transpose1 (v : tvec) : tvec := copy v.
@@ -149,7 +153,7 @@ Definition rshift (v : tvec) (o : operand) : res rresult :=
       match o with
       | OTab cs =>
           if negb (nullable d) then Err EOther             (* other.schema() is None: AttributeError *)
-          else Ok (vector_of_vectors (v :: cs) (Some d))   (* Vector((self,) + other.cols(), dtype=self._dtype) *)
+          else Ok (vector_of_vectors (v :: cs) None)       (* Vector((self,) + other.cols()) *)
       | OVec w =>
           if nullable d then Ok (vector_of_vectors [v; w] None)
           else match vdt w with
@@ -197,10 +201,14 @@ Definition cast_may_raise (t : target) (x : elt) : bool :=
 Definition cast_elem (t : target) (x : elt) : elt :=
   match x with None => None | Some (vi, p) => Some (cast_class t vi, p) end.
 (* [res] = the results as Python computed them, used only for a callable target *)
+Definition is_vec_elt (x : elt) : bool :=
+  match x with Some (vi, _) => is_vec_class (base vi) | None => false end.
 Definition cast (t : target) (res : list elt) (v : tvec) : tvec :=
   match target_kind t with
   | Some k => let out := map (cast_elem t) (vals v) in
-              mkVec out (Some (mkD k (existsb el_none out))) (vname v)
+              if existsb is_vec_elt out                         (* any(isinstance(x, Vector) for x in out) *)
+              then mkVec out (Some (infer_dtype (infos_of out))) (vname v)
+              else mkVec out (Some (mkD k (existsb el_none out))) (vname v)
   | None => mkVec res (Some (infer_dtype (infos_of res))) (vname v)
   end.
 
@@ -358,8 +366,8 @@ Definition step (h : heap) (o : op) : outcome :=
   | OpDropna i => with1 h i (fun v => push h (dropna v))
   | OpIsna i => with1 h i (fun v => push h (isna v))
   | OpCompare bs => push h (bools bs)
-  | OpGetitem i k => with1 h i (fun v => match getitem v k with
-                                        | Ok (GVec r) => push h r
+  | OpGetitem i k => with1 h i (fun v => match getitem v k with      (* the selection of Model/Index.v ... *)
+                                        | Ok (GVec r) => push h (copy_new v (vals r) (vname r))   (* ... built by self.copy(<selected>) *)
                                         | _ => raised h end)
   | OpTake i idx => with1 h i (fun v => push_res h (take v idx))
   | OpCopy i new => with1 h i (fun v => push h (match new with None => copy v | Some l => copy_new v l (vname v) end))
@@ -379,32 +387,5 @@ Definition step (h : heap) (o : op) : outcome :=
   end.
 
 Definition run (ops : list op) : heap := fold_left (fun h o => fst (step h o)) ops [].
-
-(* On the current tree five call sites keep / fabricate a dtype that their values need not honour
-   (findings NEW-C03-1..5, see Props/C03.v): an operation is SAFE when it stays clear of them. *)
-Definition has_vec_elt (v : tvec) : bool :=
-  existsb (fun x => match x with Some (vi, _) => is_vec_class (base vi) | None => false end) (vals v).
-Definition safe_op (h : heap) (o : op) : bool :=
-  match o with
-  | OpToObject i => match nth_error h i with Some v => negb (existsb el_none (vals v)) | None => true end
-  | OpNew x n ts => negb (ts && el_none x)
-  | OpCopy i (Some l) => match nth_error h i with
-                         | Some v => match vdt v with
-                                     | Some d => forallb (fun x => belongs (el_info x) d) l
-                                     | None => true end
-                         | None => true end
-  | OpRshift i (AtTab js) => match nth_error h i, resolve h (AtTab js) with
-                            | Some v, Some (OTab cs) => same_lengths (v :: cs)
-                            | _, _ => true end
-  | OpCast i t _ => match nth_error h i, target_kind t with
-                    | Some v, Some _ => negb (has_vec_elt v)
-                    | _, _ => true end
-  | _ => true
-  end.
-Fixpoint safe_from (h : heap) (ops : list op) : bool :=
-  match ops with
-  | [] => true
-  | o :: t => safe_op h o && safe_from (fst (step h o)) t
-  end.
 
 End WithConv.
